@@ -170,4 +170,33 @@ Section RegSpec.
            lookup_chain pt_incoming String.eqb Ascii.eqb Bool.eqb s_w w_proto];
       peel2; reflexivity.
   Qed.
+
+  (* ... and for the 2.x node reports that touch the sleeping flag / the heartbeat counter:
+     heartbeat response (22: the 2.0 handler under 2.0 / 2.1, the 2.2 handler under 2.2),
+     pre-sleep notification (32, under 2.2), discover response (21) *)
+  Definition wake_report_body (i : nat) (t : Z) : option body :=
+    match i with
+    | 2%nat | 3%nat => if t =? 22 then Some BHeartbeat20 else if t =? 21 then Some BDiscoverResponse else None
+    | 4%nat => if t =? 22 then Some BHeartbeat22 else if t =? 32 then Some BPreSleep
+               else if t =? 21 then Some BDiscoverResponse else None
+    | _ => None
+    end.
+
+  Theorem wake_report_nodes line s m b :
+    decode (proto_of (s_w s)) line = DecOk m -> m_cmd m = 3 ->
+    wake_report_body (w_proto (s_w s)) (m_type m) = Some b ->
+    nodes_of (listen_step bat vlt now line s) = nodes_of (run_body2 bat vlt now b no_super m s).
+  Proof.
+    intros Hd Hk Hb. rewrite (listen_internal bat vlt now line m s Hd Hk), nodes_dec_mpv. clear Hd.
+    destruct s as [[nodes pv proto ib sb metric] log faults].
+    unfold internal_inner, bind, get_w. cbn beta iota. unfold proto_of, wake_report_body in *. cbn [s_w w_proto] in *.
+    destruct proto as [|[|[|[|[|k]]]]]; try discriminate Hb.
+    all: repeat match type of Hb with
+         | (if ?t =? ?c then _ else _) = _ => destruct (Z.eqb_spec t c) as [E|?]; [injection Hb as <-; rewrite E|]
+         end; try discriminate Hb.
+    all: unfold dispatch2, bind, get_w, proto_of, proto_at;
+      cbn [nth protocols enum_lname_of pt_internal proto_1_4 proto_1_5 proto_2_0 proto_2_1 proto_2_2 Z.eqb Pos.eqb append
+           lookup_chain pt_incoming String.eqb Ascii.eqb Bool.eqb s_w w_proto];
+      peel2; reflexivity.
+  Qed.
 End RegSpec.
